@@ -91,6 +91,95 @@ theorem C16_complete (rstrip lstrip : String → String) (path dp : String) (hea
   have := foldl_putPath_distinct (apiEntry rstrip lstrip path dp heap) ms [] (by simpa using hnd)
   simpa using this
 
+/-! ### the path keys are distinct when the (URL path, method name) pairs are -/
+
+theorem split_first {α} [DecidableEq α] (c : α) (x x' y y' : List α) (hx : c ∉ x) (hx' : c ∉ x')
+    (h : x ++ c :: y = x' ++ c :: y') : x = x' ∧ y = y' := by
+  induction x generalizing x' with
+  | nil =>
+    cases x' with
+    | nil => simpa using h
+    | cons a as =>
+      simp only [List.nil_append, List.cons_append, List.cons.injEq] at h
+      exact absurd (h.1 ▸ List.mem_cons_self) hx'
+  | cons a as ih =>
+    cases x' with
+    | nil =>
+      simp only [List.nil_append, List.cons_append, List.cons.injEq] at h
+      exact absurd (h.1 ▸ List.mem_cons_self) hx
+    | cons b bs =>
+      simp only [List.cons_append, List.cons.injEq] at h
+      have := ih bs (fun hm => hx (List.mem_cons_of_mem _ hm)) (fun hm => hx' (List.mem_cons_of_mem _ hm)) h.2
+      exact ⟨by rw [h.1, this.1], this.2⟩
+
+/-- the key `path#name` determines the URL path and the method name (URL paths contain no `#`) -/
+theorem pathKey_injective (p p' n n' : String) (hp : '#' ∉ p.toList) (hp' : '#' ∉ p'.toList)
+    (h : p ++ "#" ++ n = p' ++ "#" ++ n') : p = p' ∧ n = n' := by
+  have h2 := congrArg String.toList h
+  simp only [String.toList_append] at h2
+  have hs : ("#" : String).toList = ['#'] := by decide
+  rw [hs] at h2
+  simp only [List.append_assoc, List.singleton_append] at h2
+  have := split_first '#' _ _ _ _ hp hp' h2
+  exact ⟨String.toList_inj.mp this.1, String.toList_inj.mp this.2⟩
+
+theorem nodup_map_of_imp {α β γ} (f : α → β) (g : α → γ) (l : List α)
+    (h : ∀ a ∈ l, ∀ b ∈ l, f a = f b → g a = g b) (hg : (l.map g).Nodup) : (l.map f).Nodup := by
+  induction l with
+  | nil => simp
+  | cons x xs ih =>
+    simp only [List.map_cons, List.nodup_cons, List.mem_map] at hg ⊢
+    refine ⟨?_, ih (fun a ha b hb => h a (List.mem_cons_of_mem _ ha) b (List.mem_cons_of_mem _ hb)) hg.2⟩
+    rintro ⟨y, hy, hfy⟩
+    exact hg.1 ⟨y, hy, h y (List.mem_cons_of_mem _ hy) x List.mem_cons_self hfy⟩
+
+/-- **Complete, stated on what the user sees.**  If the registered methods' (endpoint URL path, exposed
+name) pairs are pairwise distinct - and URL paths contain no `#` - the document has exactly one entry
+per registered method, in registration order, each a function of its own method alone.  (The premise of
+`C16_complete` - distinct keys - is derived, not assumed.) -/
+theorem C16_complete_distinct_paths (rstrip lstrip : String → String) (path dp : String) (heap : Heap) (ms : List SpecMethod)
+    (hhash : ∀ m ∈ ms, '#' ∉ (joinPath rstrip lstrip path m.endpoint).toList)
+    (hnd : (ms.map (fun m => (joinPath rstrip lstrip path m.endpoint, m.name))).Nodup) :
+    (genOpenApi true rstrip lstrip path dp heap ms).doc.paths = ms.map (apiEntry rstrip lstrip path dp heap) := by
+  apply C16_complete
+  apply nodup_map_of_imp _ (fun m => (joinPath rstrip lstrip path m.endpoint, m.name)) ms _ hnd
+  intro a ha b hb hk
+  simp only [apiEntry, entryOf] at hk
+  have := pathKey_injective _ _ _ _ (hhash a ha) (hhash b hb) hk
+  rw [this.1, this.2]
+
+/-- the `#` premise is needed: a `#` in an endpoint path lets two different (path, name) pairs share a key -/
+theorem C16_hash_in_path_collides :
+    ("/a#b" ++ "#" ++ "c" : String) = "/a" ++ "#" ++ "b#c" ∧ (("/a#b" : String), ("c" : String)) ≠ ("/a", "b#c") := by decide
+
+/-! ### `join_path` with the real strip functions -/
+
+theorem not_mem_dropWhile {α} (p : α → Bool) (c : α) (l : List α) (h : c ∉ l) : c ∉ l.dropWhile p :=
+  fun hm => h ((List.dropWhile_sublist p).subset hm)
+
+/-- `join_path` introduces no `#`: if neither the document path nor the endpoint prefix contains one,
+the joined URL path contains none -/
+theorem joinPathC_no_hash (path ep : String) (hp : '#' ∉ path.toList) (he : '#' ∉ ep.toList) :
+    '#' ∉ (joinPathC path ep).toList := by
+  unfold joinPathC joinPath
+  split
+  · exact hp
+  · simp only [String.toList_append, rstripSlash, lstripSlash, String.toList_ofList, List.mem_append, not_or]
+    refine ⟨⟨?_, by decide⟩, not_mem_dropWhile _ _ _ he⟩
+    intro hm
+    have := not_mem_dropWhile (· == '/') '#' path.toList.reverse (by simpa using hp)
+    exact this (by simpa using hm)
+
+/-- `C16_complete_distinct_paths` with the premise on what the user writes: a document path and endpoint
+prefixes without `#` -/
+theorem C16_complete_user_paths (path dp : String) (heap : Heap) (ms : List SpecMethod)
+    (hp : '#' ∉ path.toList) (he : ∀ m ∈ ms, '#' ∉ m.endpoint.toList)
+    (hnd : (ms.map (fun m => (joinPathC path m.endpoint, m.name))).Nodup) :
+    (genOpenApi true rstripSlash lstripSlash path dp heap ms).doc.paths = ms.map (apiEntry rstripSlash lstripSlash path dp heap) :=
+  C16_complete_distinct_paths rstripSlash lstripSlash path dp heap ms (fun m hm => joinPathC_no_hash path m.endpoint hp (he m hm)) hnd
+
+example : joinPathC "/api/" "/v1" = "/api/v1" ∧ joinPathC "/api" "" = "/api" ∧ joinPathC "" "v1/" = "/v1/" := by decide
+
 theorem putComp_mem (c x : String) (cs : List String) : x ∈ putComp c cs ↔ x = c ∨ x ∈ cs := by
   unfold putComp
   split
